@@ -214,17 +214,198 @@ theorem statText_noAddr (e : Option Err) (hc : ∀ x, e = some x → x.opaqueCle
     | some r => exact generalize_noAddr false e r (hc e rfl) h
 
 
+/-! ### the same with "no client address" in place of "no address" -/
+
+theorem isStr_imp_notClient_all (ts : List Tok) (h : noAddr ts = true) : noClient ts = true :=
+  noClient_of_noAddr ts h
+
+/-- an error whose text names no client has no client in its opaque parts -/
+theorem opaqueNoClient_of_text (e : Err) (h : noClient e.text = true) : e.opaqueNoClient = true := by
+  induction e with
+  | errno n msg => rfl
+  | syscallErr c inner ih =>
+    simp only [Err.text, noClient_cons, Bool.and_eq_true] at h
+    exact ih h.2
+  | opError op net src dst inner ih =>
+    simp only [Err.text, noClient_append, Bool.and_eq_true] at h
+    exact ih h.2
+  | eof => rfl
+  | netClosed => rfl
+  | osClosed => rfl
+  | deadline => rfl
+  | wrapped t inner ih =>
+    simp only [Err.text, noClient_append, Bool.and_eq_true] at h
+    simp only [Err.opaqueNoClient, Bool.and_eq_true]
+    exact ⟨h.1, ih h.2⟩
+  | other t => simpa [Err.opaqueNoClient, Err.text] using h
+  | netErr t b => simpa [Err.opaqueNoClient, Err.text] using h
+
+theorem text_noClient_of_not_hasOp (e : Err) (hc : e.opaqueNoClient = true) (h : e.hasOp = false) :
+    noClient e.text = true := by
+  induction e with
+  | errno n msg => rfl
+  | syscallErr c inner ih =>
+    simp only [Err.hasOp] at h
+    simp only [Err.opaqueNoClient] at hc
+    simp only [Err.text, noClient_cons, Tok.notClient, Bool.true_and]
+    exact ih hc h
+  | opError op net src dst inner ih => simp [Err.hasOp] at h
+  | eof => rfl
+  | netClosed => rfl
+  | osClosed => rfl
+  | deadline => rfl
+  | wrapped t inner ih =>
+    simp only [Err.hasOp] at h
+    simp only [Err.opaqueNoClient, Bool.and_eq_true] at hc
+    simp only [Err.text, noClient_append, Bool.and_eq_true]
+    exact ⟨hc.1, ih hc.2 h⟩
+  | other t => simpa [Err.opaqueNoClient, Err.text] using hc
+  | netErr t b => simpa [Err.opaqueNoClient, Err.text] using hc
+
+theorem opError_bare_text_noClient (op net : String) (inner : Err) (h : noClient inner.text = true) :
+    noClient (Err.opError op net none none inner).text = true := by
+  simp only [Err.text, List.append_nil]
+  split <;> simp [noClient_cons, Tok.notClient, h]
+
+/-- `strip` removes every client address of an error whose opaque parts name no client -/
+theorem strip_noClient (e : Err) (hc : e.opaqueNoClient = true) : noClient e.strip.text = true := by
+  induction e with
+  | errno n msg => rfl
+  | syscallErr c inner ih =>
+    simp only [Err.opaqueNoClient] at hc
+    simp only [Err.strip]
+    split
+    · exact ih hc
+    · rename_i hno
+      simp only [Err.text, noClient_cons, Tok.notClient, Bool.true_and]
+      exact text_noClient_of_not_hasOp inner hc (by simpa using hno)
+  | opError op net src dst inner ih =>
+    simp only [Err.opaqueNoClient] at hc
+    simp only [Err.strip]
+    exact opError_bare_text_noClient op net _ (ih hc)
+  | eof => rfl
+  | netClosed => rfl
+  | osClosed => rfl
+  | deadline => rfl
+  | wrapped t inner ih =>
+    simp only [Err.opaqueNoClient, Bool.and_eq_true] at hc
+    simp only [Err.strip]
+    split
+    · exact ih hc.2
+    · rename_i hno
+      simp only [Err.text, noClient_append, Bool.and_eq_true]
+      exact ⟨hc.1, text_noClient_of_not_hasOp inner hc.2 (by simpa using hno)⟩
+  | other t => simpa [Err.opaqueNoClient, Err.strip, Err.text] using hc
+  | netErr t b => simpa [Err.opaqueNoClient, Err.strip, Err.text] using hc
+
+theorem generalize_noClient (app : Bool) (e r : Err) (hc : e.opaqueNoClient = true) (h : generalize app e = some r) :
+    noClient r.text = true := by
+  unfold generalize at h
+  split at h
+  · split at h
+    · cases h; rfl
+    · cases h
+  · split at h
+    · cases h; rfl
+    · split at h
+      · cases h; rfl
+      · split at h
+        · cases h; rfl
+        · split at h
+          · cases h; rfl
+          · split at h
+            · cases h; rfl
+            · cases h; exact strip_noClient e hc
+
+/-- **what `generalizeErr` returns for an error that names clients only through operation errors prints no
+client address** (the station, phantom or covert may still be named in opaque text) -/
+theorem generalizedText_noClient (app : Bool) (e : Err) (hc : e.opaqueNoClient = true) :
+    noClient (generalizedText app e) = true := by
+  unfold generalizedText
+  cases h : generalize app e with
+  | none => rfl
+  | some r => exact generalize_noClient app e r hc h
+
+/-! ### classes -/
+
+theorem inCls_structured_of_clean (e : Err) (h : e.inCls .clean) : e.inCls .structured :=
+  opaqueNoClient_of_text e h
+
+/-- wrapping with `%w` and a client-free prefix keeps an error within its class -/
+theorem wrapped_inCls (c : Cls) (pre : List Tok) (e : Err) (hp : noClient pre = true) (h : e.inCls c) :
+    (Err.wrapped pre e).inCls c := by
+  cases c with
+  | clean => simp only [Err.inCls, Err.text, noClient_append, Bool.and_eq_true]; exact ⟨hp, h⟩
+  | structured => simp only [Err.inCls, Err.opaqueNoClient, Bool.and_eq_true]; exact ⟨hp, h⟩
+  | leaky => trivial
+
+/-- flattening (`fmt.Errorf("pre %v post", e)`): the new error is an opaque value whose text contains the
+text of `e`; it is within `c.flat` -/
+theorem flattened_inCls (c : Cls) (pre post : List Tok) (e : Err) (hp : noClient pre = true)
+    (hq : noClient post = true) (h : e.inCls c) : (Err.other (pre ++ e.text ++ post)).inCls c.flat := by
+  cases c with
+  | clean =>
+    simp only [Cls.flat, Err.inCls, Err.text, noClient_append, Bool.and_eq_true]
+    exact ⟨⟨hp, h⟩, hq⟩
+  | structured => trivial
+  | leaky => trivial
+
+/-- `generalizeErr` takes an error of class `c` to text within `c.gen` -/
+theorem gen_inCls (app : Bool) (c : Cls) (e : Err) (h : e.inCls c) (hc : c.gen = .clean) :
+    noClient (generalizedText app e) = true := by
+  cases c with
+  | clean => exact generalizedText_noClient app e (inCls_structured_of_clean e h)
+  | structured => exact generalizedText_noClient app e h
+  | leaky => cases hc
+
 /-! ### call sites -/
 
-theorem arg_ok_noClient (env : Env) (hok : env.Ok) (a : Arg) (h : a.ok = true) :
+theorem src_ok_noClient (known : List Cls) (env : Env) (hok : env.Ok known) (s : Src)
+    (h : siteSrcCls known s = .clean) : noClient (srcText env s) = true := by
+  cases s with
+  | tainted w => simp [siteSrcCls, srcCls, rsrcCls, Src.resolve] at h
+  | err flat gen o =>
+    have hr := hok.raw_ok o
+    simp only [originCls] at hr
+    simp only [siteSrcCls, srcCls, rsrcCls, Src.resolve, Bool.false_eq_true, if_false] at h
+    generalize (viaFns known known.length o.fnsR).max o.leafR = c at h hr
+    cases gen with
+    | true =>
+      simp only [srcText, if_true]
+      simp only [if_true] at h
+      have hg : c.gen = .clean := by
+        cases flat with
+        | true =>
+          simp only [if_true] at h
+          cases hgc : c.gen with
+          | clean => rfl
+          | structured => rw [hgc] at h; cases h
+          | leaky => rw [hgc] at h; cases h
+        | false => simpa using h
+      exact gen_inCls env.app _ _ hr hg
+    | false =>
+      simp only [srcText, Bool.false_eq_true, if_false]
+      simp only [Bool.false_eq_true, if_false] at h
+      have hc : c = .clean := by
+        cases flat with
+        | true =>
+          simp only [if_true] at h
+          cases c with
+          | clean => rfl
+          | structured => cases h
+          | leaky => cases h
+        | false => simpa using h
+      rw [hc] at hr
+      exact hr
+
+theorem arg_ok_noClient (known : List Cls) (env : Env) (hok : env.Ok known) (a : Arg) (h : a.ok known = true) :
     noClient (renderArg env a) = true := by
   cases a with
   | lit => rfl
   | num => rfl
-  | genErr => exact noClient_of_noAddr _ (generalizedText_noAddr env.app env.err hok.err_clean)
-  | rawErr o =>
-    simp only [Arg.ok, List.contains_iff_mem] at h
-    exact hok.raw_ok o h
+  | err s =>
+    simp only [Arg.ok, beq_iff_eq] at h
+    exact src_ok_noClient known env hok s h
   | typeOf s => rfl
   | expr s =>
     simp only [Arg.ok] at h
@@ -236,21 +417,21 @@ theorem arg_ok_noClient (env : Env) (hok : env.Ok) (a : Arg) (h : a.ok = true) :
       subst hr
       simp [hl] at h
 
-theorem args_ok_noClient (env : Env) (hok : env.Ok) (l : List Arg) (hl : ∀ a ∈ l, a.ok = true) :
-    noClient (l.flatMap (renderArg env)) = true := by
+theorem args_ok_noClient (known : List Cls) (env : Env) (hok : env.Ok known) (l : List Arg)
+    (hl : ∀ a ∈ l, a.ok known = true) : noClient (l.flatMap (renderArg env)) = true := by
   induction l with
   | nil => rfl
   | cons a l ih =>
     rw [List.flatMap_cons, noClient_append, Bool.and_eq_true]
-    exact ⟨arg_ok_noClient env hok a (hl a (by simp)), ih (fun x hx => hl x (by simp [hx]))⟩
+    exact ⟨arg_ok_noClient known env hok a (hl a (by simp)), ih (fun x hx => hl x (by simp [hx]))⟩
 
 /-- a site that passes the table check, is emitted and is not exempt renders no client address -/
-theorem site_ok_noClient (tbl : List (Level × Bool)) (s : Site) (h : s.ok tbl = true)
+theorem site_ok_noClient (tbl : List (Level × Bool)) (known : List Cls) (s : Site) (h : s.ok tbl known = true)
     (hem : emittedBy tbl s.level = true)
-    (hex : exemptFormats.contains s.format = false) (env : Env) (hok : env.Ok) :
+    (hex : exemptFormats.contains s.format = false) (env : Env) (hok : env.Ok known) :
     noClient (renderSite env s) = true := by
   simp only [Site.ok, hem, hex, Bool.not_true, Bool.false_or, List.all_eq_true] at h
-  exact args_ok_noClient env hok s.args h
+  exact args_ok_noClient known env hok s.args h
 
 theorem deadlineError_noClient (net : String) (local_ : Addr) (cause : Err)
     (hl : local_.role ≠ .client) (hc : noClient cause.text = true) :
